@@ -495,7 +495,7 @@ def monitor(case, line):
             if len(st0) >= 7:
                 zlbdl[x] = st0[6]
                 lastq[x] = int(st0[4])
-        if op[0] == "s":
+        if op[0] == "s" and not tok.startswith("R/"):      # R = refused by a dead channel: never accepted for sending
             subs[x].append(op.split(":")[1])
         if "[" in tok and "]" in tok:
             for q in [y for y in tok.split("[", 1)[1].split("]")[0].split(",") if y]:
@@ -537,8 +537,7 @@ def monitor(case, line):
                 x, len(subs[x]), len(lst(kv.get("ack" + x, ""))), lastq[x])
     if any(op[0] == "j" for op in c["ops"]):
         return None
-    sub = {"A": [o.split(":")[1] for o in c["ops"] if o.startswith("sA")],
-           "B": [o.split(":")[1] for o in c["ops"] if o.startswith("sB")]}
+    sub = subs
     for snd, rcv in (("A", "B"), ("B", "A")):
         d = lst(kv.get("del" + rcv, ""))
         if d != sub[snd][:len(d)]:
